@@ -33,7 +33,7 @@ PROPS = {
     "C11": dict(targets=["Properties_C11.vo"], families=[("term", 0.5), ("term_modes", 1.0), ("term_wild", 0.2)], codes=[1101]),
     "C13": dict(targets=["Properties_C13.vo"], families=OUTPUT_FAMILIES, codes=[1301]),
     "C16": dict(targets=["Properties_C16.vo"], families=[("canvas", 1.0), ("canvas_alias", 0.5)], codes=[], extra="c16"),
-    "C15": dict(targets=["Properties_C15.vo"], families=[("values", 1.0)], codes=[], extra="c15"),
+    "C15": dict(targets=["Properties_C15.vo"], families=[("values", 1.0), ("show", 0.3)], codes=[], extra="c15"),
     "C17": dict(targets=["Properties_C17.vo"], families=[("term", 1.0), ("term_wild", 0.3), ("strings", 0.7)], codes=[1701], extra="c17"),
     "C05": dict(targets=["Properties_C05.vo"], families=[("items", 1.0), ("garbage", 0.3), ("keyseq", 0.3)], codes=[], extra="c05", expand=True),
     "C06": dict(targets=["Properties_C06.vo"], families=[("chunks", 1.0), ("items", 0.3)], codes=[], extra="c06", expand=True),
@@ -43,7 +43,7 @@ PROPS = {
     "C12": dict(targets=["Properties_C12.vo"], families=[("canvas_alias", 0.5)], codes=[], special="c12", extra="c16"),
     "C14": dict(targets=["Properties_C14.vo"], families=[], codes=[], special="c14"),
     "C18": dict(targets=["Properties_C18.vo"], families=[("charset_sweep", 1.0), ("term", 0.5)], codes=[101, 102], extra="c18"),
-    "C19": dict(targets=["Properties_C19.vo"], families=[("term", 0.5)], codes=[102]),
+    "C19": dict(targets=["Properties_C19.vo"], families=[("term", 0.5), ("show_sweep", 1.0), ("show", 0.5)], codes=[102], extra="c19"),
 }
 
 PARTIAL = {
@@ -86,6 +86,10 @@ def gen_family(family, seed, n):
             lines += gen.gen_chunks_case(r, cid)
         elif family == "strings":
             lines += gen.gen_strings_case(r, cid)
+        elif family == "show":
+            lines += gen.gen_show_case(r, cid)
+        elif family == "show_sweep":
+            return gen.gen_show_sweep()
         elif family == "parser_enum":
             return gen.gen_parser_enum(4 if n >= 10000 else 3)
         elif family == "keyseq":
@@ -215,6 +219,70 @@ def oracle_c15(impl_lines):
                     if len(args) % 2 == 0 and args[: len(args) // 2] == args[len(args) // 2:] and t[1] != "str" and not eq:
                         fails.append((cid, "a value is not equal to itself: %s" % last))
     return fails
+
+
+LOW_NAMES = {0: "black", 1: "red", 2: "green", 3: "yellow", 4: "blue", 5: "magenta", 6: "cyan", 7: "white", 9: "default"}
+
+
+def colour_text(k, a, b, c):
+    """the text a colour is shown as, from the components it was built from
+    (None where the property says nothing: values outside the palette ranges)"""
+    if k == 0:
+        return LOW_NAMES.get(a)
+    if k == 1 and 16 <= a <= 231:
+        v = a - 16
+        return "#%d%d%d" % (v // 36, (v // 6) % 6, v % 6)
+    if k == 2 and 232 <= a <= 255:
+        return "#%02d" % (a - 232)
+    if k == 3:
+        return "#%02X%02X%02X" % (a, b, c)
+    return None
+
+
+SHOW_ARITY = {"colour": 4, "attr": 12, "cs": 1, "glyph": 4, "elem": 16, "point": 2, "extent": 2, "rect": 4}
+
+
+def oracle_show(impl_lines):
+    """values inserted into one stream: the text equals the texts of the same
+    values shown each on a fresh stream (no dependence on what was streamed
+    before), and a colour is shown as the components it was built from"""
+    fails = []
+    cases, order = vc.split_cases(impl_lines)
+    for cid in order:
+        last, sh = None, None
+        for l in cases[cid]:
+            if l.startswith("> V show "):
+                last, sh = l, None
+            elif l.startswith("> "):
+                last = None
+            elif l.startswith("SH ") and last:
+                sh = l[3:].strip()
+            elif l.startswith("SHS ") and last and sh is not None:
+                shs = l[4:].strip()
+                if sh != shs:
+                    fails.append((cid, "values shown one after another on one stream read %r, the same values each on a fresh stream read %r" % (
+                        bytes.fromhex(sh if sh != "-" else ""), bytes.fromhex(shs if shs != "-" else ""))))
+                    continue
+                texts = bytes.fromhex(sh if sh != "-" else "").split(b"\n")
+                t = last[2:].split()[3:]
+                i, k = 0, 0
+                while i < len(t):
+                    tag = t[i]
+                    if tag == "str":
+                        n = 1 + 16 * int(t[i + 1])
+                    else:
+                        n = SHOW_ARITY[tag]
+                    if tag == "colour":
+                        want = colour_text(*[int(x) for x in t[i + 1:i + 5]])
+                        if want is not None and k < len(texts) and texts[k] != want.encode():
+                            fails.append((cid, "colour %s is shown as %r, expected %r" % (" ".join(t[i + 1:i + 5]), texts[k], want)))
+                    i += 1 + n
+                    k += 1
+    return fails
+
+
+def oracle_c15s(impl_lines):
+    return oracle_c15(impl_lines) + oracle_show(impl_lines)
 
 
 def parse_cb(line):
@@ -396,6 +464,25 @@ def oracle_c18(impl_lines):
     return fails
 
 
+def wire_text(nums):
+    """hex of the glyph bytes a terminal transmits for elements given as 16 ints
+    each; None when a glyph is not well-formed (the property is about text)"""
+    out = []
+    for i in range(0, len(nums) - 15, 16):
+        cs, b0, b1, b2 = nums[i:i + 4]
+        if cs != 18:
+            out.append(b0)
+        elif b0 < 0x80 and b1 == 0 and b2 == 0:
+            out.append(b0)
+        elif 0xC2 <= b0 <= 0xDF and 0x80 <= b1 <= 0xBF and b2 == 0:
+            out += [b0, b1]
+        elif 0xE0 <= b0 <= 0xEF and 0x80 <= b1 <= 0xBF and 0x80 <= b2 <= 0xBF:
+            out += [b0, b1, b2]
+        else:
+            return None
+    return bytes(out).hex() if out else "-"
+
+
 def oracle_c17(impl_lines):
     """bytes -> attributed string -> to_string is the identity; to_string
     distributes over concatenation"""
@@ -410,11 +497,17 @@ def oracle_c17(impl_lines):
                     kind, arg = pend
                     if kind == "round" and (len(ts) != 1 or ts[0] != arg):
                         fails.append((cid, "bytes %s converted to an attributed string and back give %s" % (arg, ts[0] if ts else "<nothing>")))
+                    if kind == "wire" and (len(ts) != 1 or ts[0] != arg):
+                        fails.append((cid, "to_string of a string whose glyphs are transmitted as %s gives %s" % (arg, ts[0] if ts else "<nothing>")))
                     if kind == "concat" and (len(ts) != 2 or ts[0] != ts[1]):
                         fails.append((cid, "to_string(a + b) = %s but to_string(a) + to_string(b) = %s" % (ts[0] if ts else "?", ts[1] if len(ts) > 1 else "?")))
                 pend, ts = None, []
                 t = l[2:].split()
-                if len(t) >= 3 and t[0] == "M" and t[1] in ("ofbytes", "ofstd", "ofstdattr"):
+                if len(t) >= 3 and t[0] == "M" and t[1] == "tostring":
+                    want = wire_text([int(x) for x in t[3:]])
+                    if want is not None:
+                        pend = ("wire", want)
+                elif len(t) >= 3 and t[0] == "M" and t[1] in ("ofbytes", "ofstd", "ofstdattr"):
                     pend = ("round", t[2])
                 elif len(t) >= 2 and t[0] == "M" and t[1] == "concat":
                     pend = ("concat", None)
@@ -452,7 +545,7 @@ def oracle_c07(impl_lines):
     return oracle_c05(impl_lines)
 
 
-EXTRA = {"c16": oracle_c16, "c15": oracle_c15, "c05": oracle_c05, "c06": oracle_c06, "c20": oracle_c20, "c07": oracle_c07, "c10": oracle_c10, "c17": oracle_c17, "c18": oracle_c18}
+EXTRA = {"c19": oracle_show, "c16": oracle_c16, "c15": oracle_c15s, "c05": oracle_c05, "c06": oracle_c06, "c20": oracle_c20, "c07": oracle_c07, "c10": oracle_c10, "c17": oracle_c17, "c18": oracle_c18}
 
 
 def known_for(pid):
@@ -611,6 +704,9 @@ def run_check(pid, tier, seed, replay=None):
         return 1 if fails else 0
     if P.get("special"):
         runner = special.run_c12 if P["special"] == "c12" else special.run_c14
+        # a broken proof obligation (e.g. the statics scan) makes the search for a
+        # failing schedule deeper: more groups, and the threaded runs under TSan
+        ctx.escalate = bool(proof_failed)
         sp_fails, sp_stats = runner(pid, tier, seed, ctx, P)
         stats["evaluations"] += sum(v for v in sp_stats.values() if isinstance(v, int) and not isinstance(v, bool))
         for (why, lines) in sp_fails:
